@@ -472,6 +472,19 @@ def register_checker(R):
     def post_hint(E, vars):
         """proof steps for the `return False` exit: the overfull key is the id of a row (the parent row of its first listed child)"""
         k = vars.get("k")
+        if "children" in vars and not isinstance(k, Sym) and ("dictkeys", vars["children"].uid) in E.ghost:
+            # the `return True` exit: every id is a key of the dict (hence was enumerated by the second loop) or names no row as its child
+            ids, pids = vars["topology"]
+            n = ids.nz()
+            d = vars["children"]
+            dom, val, lens = _dview(d)
+            ks, m, pos = E.ghost[("dictkeys", d.uid)]
+            nch = E.spec_extra["nch"]
+            a = z3.Int(fresh_name("a"))
+            ka = ids.get(a).z
+            E.prove("is_bifurcate/step/every-id-is-an-enumerated-key-or-has-no-child",
+                    z3.ForAll([a], z3.Implies(z3.And(0 <= a, a < n), z3.Or(z3.And(z3.Select(dom, ka), pos(ka) >= 0, pos(ka) < m, ks(pos(ka)) == ka), nch(ka, n) == 0))), "annotation")
+            return
         if not isinstance(k, Sym) or "children" not in vars:
             return
         ids, pids = vars["topology"]
@@ -567,12 +580,18 @@ def register_has_cyclic(R):
         pk = z3.Select(P, k)
         E.assume(z3.ForAll([x, y], Conn(k + 1, x, y) == z3.Or(Conn(k, x, y), z3.And(pk != -1, z3.Or(z3.And(Conn(k, x, k), Conn(k, y, pk)), z3.And(Conn(k, x, pk), Conn(k, y, k)))))))
 
-    R.add(f"{CHK}:has_cyclic", prop="C18", setup=setup, returns="bool",
+    def cycle_lemmas(E, fr):
+        E.assumptions.add("assumed-lemma: functional-cycle lemmas (lean/FunctionalCycle.lean): the relation Conn defined by recursion on the number of rows is the "
+                          "equivalence generated by the edges of the rows below i (conn_rec_iff), and some edge j -> pid j joins two rows already connected by the "
+                          "edges of the rows below j exactly when the table contains a directed cycle (functional_cycle); no instance is assumed on the SMT side -- "
+                          "the lemmas turn has_cyclic's postcondition into the property's `the table contains a cycle`")
+
+    R.add(f"{CHK}:has_cyclic", prop="C18", setup=setup, returns="bool", lemmas=[cycle_lemmas],
           options=dict(hints={"loop0/preserved/joined-exactly-when-connected-by-the-edges-so-far": unfold_conn}),
           ensures=[("true-iff-some-edge-joins-two-nodes-already-connected-by-earlier-edges", post)],
           loops={0: dict(invariant=[(nm, inv(nm)) for nm in ("structure-is-a-valid-union-find-of-the-right-size", "joined-exactly-when-connected-by-the-edges-so-far", "no-earlier-edge-closed-a-cycle")],
                          modifies=["dsu"])},
-          notes="an edge closing an undirected cycle among at-most-one-out-edge graphs is a directed cycle (lemma functional_cycle, argued in DESIGN, not mechanised); "
+          notes="an edge closing an undirected cycle among at-most-one-out-edge graphs is a directed cycle (lemma functional_cycle, proved in lean/FunctionalCycle.lean); "
                 "ids are positions and parents are -1 or nodes (the property's quantifier)")
 
 
@@ -1185,8 +1204,10 @@ def register_link_roots(R):
           ensures=[(nm, post(nm)) for nm in POSTS] + [("attributes-untouched", other_cols)],
           loops={0: dict(invariant=[(nm, inv(nm)) for nm in INV], modifies=["G", "df"], rebind=AnyName(), lookahead=True)},
           options=dict(ghost_after=GHOST),
-          notes="which foreign row is chosen (the nearest) is not part of the property: the contract needs only that argmin over the rows of OTHER trees "
-                "returns a row of another tree; termination of get_dsu is not proved")
+          notes="postconditions: single-rooted, first root kept, every original edge and attribute kept, no cycle (depth witness); step claims per link "
+                "(kind assert, proved with a one-iteration lookahead): the root is not the first one, gets as parent the id of a row OUTSIDE its own tree, "
+                "no row outside its own tree is nearer (Euclidean distance of the input coordinates, over the reals), nothing but parent ids is written; "
+                "termination of get_dsu is not proved")
 
     def on_result(clause):
         def f(E, v, o):
